@@ -156,7 +156,10 @@ func (r *Router) NewIQResultRoute(ctx context.Context, id string) chan stanza.IQ
 	go func() {
 		<-route.context.Done()
 		r.IQResultRouteLock.Lock()
-		delete(r.IQResultRoutes, id)
+		// The id may have been used again for a later request: only remove our own entry
+		if r.IQResultRoutes[id] == route {
+			delete(r.IQResultRoutes, id)
+		}
 		r.IQResultRouteLock.Unlock()
 	}()
 
